@@ -802,10 +802,20 @@ def read_cache_entry(
     else:
         # Versions < 4: regular name reading
         name = f.read(flags & FLAG_NAMEMASK)
+        name_end = f.tell()
+        if flags & FLAG_NAMEMASK == FLAG_NAMEMASK:
+            # The length field saturates at 0xFFF: a longer name runs up to
+            # the first of the NUL bytes that pad the entry
+            while True:
+                c = f.read(1)
+                if not c or c == b"\0":
+                    break
+                name += c
+                name_end += 1
 
     # Padding:
     if version < 4:
-        real_size = (f.tell() - beginoffset + 8) & ~7
+        real_size = (name_end - beginoffset + 8) & ~7
         f.read((beginoffset + real_size) - f.tell())
 
     return SerializedIndexEntry(
@@ -844,7 +854,8 @@ def write_cache_entry(
         # Version 4: use compression but set name_len to actual filename length
         # This matches how C Git implements index v4 flags
         compressed_path = _compress_path(entry.name, previous_path)
-    flags = len(entry.name) | (entry.flags & ~FLAG_NAMEMASK)
+    # the 12-bit name length saturates; longer names are found by their NUL
+    flags = min(len(entry.name), FLAG_NAMEMASK) | (entry.flags & ~FLAG_NAMEMASK)
 
     if entry.extended_flags:
         flags |= FLAG_EXTENDED
